@@ -26,9 +26,15 @@ def run(R):
     fields = [f["name"] for f in adt["variants"][0]["fields"]]
     for f in IDX + [CAT]:
         R.ob("C04-R1", "field:" + f, "DatasetIndex has field `%s`" % f, f in fields, where=adt["file"])
+    ftys = {f["name"]: f.get("ty", "") for f in adt["variants"][0]["fields"]}
+    # a field that can hold terms or graphs of its own (a set / vector / nested map) is another index; a map or scalar of numbers / flags is a summary
+    def _holds_quads(ty):
+        return any(k in ty for k in ("HashSet<", "BTreeSet<", "Vec<", "VecDeque<")) or ty.count("Map<") >= 2
     extra = [f for f in fields if f not in IDX + [CAT]]
-    R.ob("C04-R1", "fields:closed", "DatasetIndex has no index field unknown to the checker (found extra: %s)" % extra,
-         not extra, where=adt["file"], detail="a new field needs its own writer/reader agreement rule" if extra else None)
+    summaries = [f for f in extra if not _holds_quads(ftys.get(f, "HashSet<"))]
+    extra_idx = [f for f in extra if f not in summaries]
+    R.ob("C04-R1", "fields:closed", "DatasetIndex has no index field unknown to the checker (found extra: %s)" % extra_idx,
+         not extra_idx, where=adt["file"], detail="a new field that holds quads needs its own writer/reader agreement rule" if extra_idx else None)
     for f in adt["variants"][0]["fields"]:
         R.ob("C04-R1", "private:" + f["name"], "field `%s` is private to its module (type-enforced writer set)" % f["name"],
              not f["pub"], where=adt["file"])
@@ -75,6 +81,15 @@ def run(R):
     R.ob("C04-R1", "roles", "exactly one inserting, one deleting and one clearing writer of the quad indexes "
          "(insert=%s delete=%s clear=%s)" % (sorted(insert_role), sorted(delete_role), sorted(clear_role)),
          len(insert_role) == 1 and len(delete_role) == 1 and len(clear_role) == 1)
+
+    # summary fields (counters, flags): kept in step by every writer of the quad indexes, and by the catalog's remover
+    for sf in summaries:
+        st = {t.body.key for t in W.field_touches(prog, DI, [sf]) if t.kind in ("refmut", "assign")}
+        need = sorted(insert_role | delete_role | clear_role)
+        missing = [k for k in need if k not in st]
+        R.ob("C04-R1", "summary:" + sf, "summary field `%s` is updated by every writer of the quad indexes (writers of the field: %s; index writers without it: %s)"
+             % (sf, sorted(prog.bodies[k].name for k in st if k in prog.bodies), [prog.bodies[k].name for k in missing]), not missing, where=adt["file"],
+             detail=None if not missing else "an access path that answers from the summary disagrees with the indexes after that writer ran")
 
     # derive-generated constructors (listed, not judged)
     derived = W.field_touches(prog, DI, IDX + [CAT], bodies=[b for b in prog.bodies.values() if b.derived],
@@ -256,6 +271,40 @@ def run(R):
                     bad.append(cd.get("kind") + (":" + cd["call"].name() if cd.get("kind") == "call" else ""))
                 R.ob("C04-R8", "loop-skips-duplicates-only", "a loop of query_merged_graphs skips an element only because it was emitted before (other skips: %s)" % bad,
                      not bad, where=x.where(pushes[0].ln))
+
+    # ---- R9 creating an existing graph changes nothing
+    R.rule("C04-R9", "creating a graph that exists is a no-op: in create_graph the only unconditional write is the catalog's own set-insert "
+                     "(idempotent); every other write into a field of the index (a map `insert` that overwrites, `remove`, `clear`, an assignment) "
+                     "is control-dependent on a test that the graph did not exist before, or goes through `entry(..).or_insert(..)`. Re-creating a "
+                     "populated graph - which union() does for every graph name the two sides share - must leave every access path as it was")
+    cg = R.body("C04-R9", "DatasetIndex::create_graph")
+    if cg is not None:
+        R.saw(cg)
+        allf = [f["name"] for f in adt["variants"][0]["fields"]]
+        nw = 0
+        for t in W.field_touches(prog, DI, allf, bodies=[cg]):
+            if t.kind not in ("refmut", "assign"):
+                continue
+            nw += 1
+            set_insert = t.field == CAT and t.op == "insert"
+            soft = t.op in ("entry", "get_mut", "iter_mut", "values_mut") and t.kind == "refmut"
+            guarded = False
+            for cd in G.conditions(cg, t.bb):
+                c0 = cd.get("call")
+                if cd.get("kind") == "call" and c0 is not None and c0.name() in ("graph_exists", "contains", "contains_key", "insert", "is_some", "is_none", "is_empty"):
+                    guarded = True
+                if cd.get("kind") in ("local", "bool") or cd.get("kind") == "cmp":
+                    guarded = True
+            ok = set_insert or guarded
+            if soft and not ok:
+                # entry(..): what follows must be or_insert* / or_default (never and_modify / insert on the entry)
+                after = [c.name() for c in cg.calls() if cg.dominates(t.bb, c.bb)]
+                ok = not any(n in ("and_modify", "insert_entry", "insert") for n in after) and any(n.startswith("or_") for n in after)
+            R.ob("C04-R9", "noop:%s:%s" % (t.field, t.op or t.kind), "create_graph writes `%s` (%s) only for a graph that did not exist, or idempotently"
+                 % (t.field, t.op or t.kind), ok, where=cg.where(t.ln),
+                 detail=None if ok else "re-creating a populated graph overwrites what this field recorded for it: the access path that reads the field "
+                 "disagrees with the quad indexes from then on")
+        R.floor("C04-R9", "writes in create_graph", nw, 1)
 
     # ---- R5 rebuild
     r5(R)
